@@ -78,6 +78,29 @@ def label_count(label):
     return int(m.group(1)) if m else -1
 
 
+def fixed_workspaces():
+    """fixed trees that run before the generated ones: a plain request of a name and an override of that name that
+    requests itself, in ONE file, in both orders - the override's parameter counts for the definition it overrides,
+    whatever was resolved for the plain request before (seeds C20-a / -c / -e: a per-(file, name) shortcut)"""
+    from ..pybuild import PyFile
+    out = []
+    for above in (True, False):
+        ws = wsgen.WS()
+        c0 = PyFile(); c0.fixture("base"); c0.fixture("other"); ws.add("conftest.py", c0)
+        c1 = PyFile()
+        if above:
+            c1.fixture("derived", params=("base",))
+        c1.fixture("base", params=("base",))
+        if not above:
+            c1.fixture("derived", params=("base",))
+        ws.add("sub/conftest.py", c1)
+        t = PyFile(); t.test("test_s", params=("derived",)); t.test("test_b", params=("base", "other")); ws.add("sub/test_s.py", t)
+        ws.order = list(ws.files)
+        ws.meta = {"fixed": "plain request %s the self-requesting override" % ("above" if above else "below")}
+        out.append(ws)
+    return out
+
+
 def run(tier, seed):
     r = Run(PROP, MODULE, THEOREMS, tier, seed, need_server=True)
     if not r.prepare():
@@ -87,8 +110,9 @@ def run(tier, seed):
     cases = core.Cases(); r.last_cases = cases
     v = r.verdict
     trees = []
+    fixed = fixed_workspaces()
     for i in range(n):
-        ws = wsgen.gen_workspace(r.rng)
+        ws = fixed[i] if i < len(fixed) else wsgen.gen_workspace(r.rng)
         # keep only what the workspace scan can see (the venv / plugin mechanics are C14's)
         ws.files = {p: pf for p, pf in ws.files.items() if "site-packages" not in p and not p.startswith("plug/")}
         ws.plugin = []
